@@ -53,6 +53,10 @@ files = {
     "chunk_reclen_2p40_complen_2p27": put("chunk_complen", 2**27, put("reclen6", 2**40)),
     "chunk_reclen_2p31_complen_2p30": put("chunk_complen", 2**30, put("reclen6", 2**31 + 7)),
     "chunk_reclen_1m_complen_500k": put("chunk_complen", 500000, put("reclen6", 1 << 20)),
+    # a chunk record *shorter* than its own fixed fields, with a mid-range compression-name length: passes any record size limit
+    "chunk_reclen_0_complen_2p27": put("chunk_complen", 2**27, put("reclen6", 0)),
+    "chunk_reclen_31_complen_2p27": put("chunk_complen", 2**27, put("reclen6", 31)),
+    "chunk_reclen_12_complen_1m": put("chunk_complen", 1 << 20, put("reclen6", 12)),
 }
 # the 47-byte backwards-seek file: unknown record then an attachment header with length 2^64-18
 files["neg_attachment_47"] = (mcapenc.MAGIC + mcapenc.frame(1, mcapenc.pstr(b"") + mcapenc.pstr(b"")) + mcapenc.frame(0x80, b"")
